@@ -1,162 +1,327 @@
-(* Proofs/GCRaceProofs.v -- garbage collection is safe against concurrently committing transactions (C06). *)
+(* Proofs/GCRaceProofs.v -- garbage collection is safe against concurrently committing transactions (C06).
+
+   Part 1 is the INTERFACE of the regenerated collector kernels (Gen/GenGCRace.v): the invariant proof uses
+   gen_marker_cutoff / gen_marker_age_ok / gen_marker_action / gen_sweep_cutoff / gen_delete_guard only through
+   these lemmas, which are re-proved on every run against what the translator has just read off
+   garbage_collector.py.  If the source starts treating a marker as abandoned for any other reason than its
+   age against the abandonment timeout, or sweeps with another cutoff than `now - grace`, or deletes a file
+   that is reachable / protected / young, a lemma here (and with it C06) no longer checks. *)
 From Coq Require Import ZArith List Bool Arith Lia.
-Require Import DS.Model.GCRace.
+Require Import DS.Model.GCRaceBase DS.Gen.GenGCRace DS.Model.GCRace.
 Import ListNotations.
 Open Scope Z_scope.
 
+(* ---- interface of the regenerated kernels *)
+
+(* a marker is deleted as abandoned only if it is older than the cutoff ... *)
+Lemma marker_sweep_old c mt : gen_marker_action (gen_marker_age_ok c (Some mt)) = MSweep -> mt < c.
+Proof.
+  unfold gen_marker_action, gen_marker_age_ok. destruct (Z.leb_spec c mt); [discriminate | intros _; assumption].
+Qed.
+
+(* ... and the cutoff lies the whole abandonment timeout before the clock reading *)
+Lemma marker_cutoff_le now timeout : gen_marker_cutoff now timeout <= now - timeout.
+Proof. unfold gen_marker_cutoff. lia. Qed.
+
+(* a marker that cannot be stat'ed keeps protecting; so does one whose deletion fails *)
+Lemma marker_unstatable_protects c : gen_marker_action (gen_marker_age_ok c None) = MProtect.
+Proof. reflexivity. Qed.
+Lemma marker_sweep_failure_protects : gen_sweep_failure_protects = true.
+Proof. reflexivity. Qed.
+
+(* the sweep's cutoff lies the whole grace period before the clock reading *)
+Lemma sweep_cutoff_le now grace : gen_sweep_cutoff now grace <= now - grace.
+Proof. unfold gen_sweep_cutoff. lia. Qed.
+
+(* the deletion guard: not covered (reachable or protected) and older than the cutoff *)
+Lemma delete_guard_spec cov mt c : gen_delete_guard cov mt c = true -> cov = false /\ mt < c.
+Proof.
+  unfold gen_delete_guard. rewrite andb_true_iff, negb_true_iff, Z.ltb_lt. tauto.
+Qed.
+
+Lemma collect_arguments_checked : gen_collect_marker_arg_ok = true /\ gen_collect_sweeps_ok = true.
+Proof. split; reflexivity. Qed.
+
+(* the two kernels composed, as statements about the clock reading, the period and the modification time *)
+Lemma marker_kernel now timeout mt :
+  (gen_marker_action (gen_marker_age_ok (gen_marker_cutoff now timeout) (Some mt)) = MSweep -> mt + timeout < now)
+  /\ gen_marker_action (gen_marker_age_ok (gen_marker_cutoff now timeout) None) = MProtect
+  /\ gen_sweep_failure_protects = true.
+Proof.
+  split; [|split; [apply marker_unstatable_protects | apply marker_sweep_failure_protects]].
+  intro H. apply marker_sweep_old in H. pose proof (marker_cutoff_le now timeout). lia.
+Qed.
+
+Lemma delete_kernel now grace cov mt :
+  gen_delete_guard cov mt (gen_sweep_cutoff now grace) = true -> cov = false /\ mt + grace < now.
+Proof.
+  intro H. apply delete_guard_spec in H. destruct H as [C M]. pose proof (sweep_cutoff_le now grace). split; [exact C | lia].
+Qed.
+
+Local Opaque gen_marker_cutoff gen_marker_age_ok gen_marker_action gen_sweep_cutoff gen_delete_guard.
+
+(* ---- the invariant *)
+
 Definition live (p : tpc) : bool := match p with TWritten | TFlipped | TDone => true | _ => false end.
-Definition marked (p : tpc) : bool := match p with TMarked | TWritten | TFlipped => true | _ => false end.
+Definition marked (p : tpc) : bool := match p with TMarked | TWritten | TFlipped | TAdoptM => true | _ => false end.
 Definition committed (p : tpc) : bool := match p with TFlipped | TDone => true | _ => false end.
+(* states in which the file may be in place *)
+Definition may_exist (p : tpc) : bool := match p with TWritten | TFlipped | TDone | TOrphaned | TPre | TAdoptM => true | _ => false end.
+(* states a file never returns from to TNew / TMarked *)
+Definition past_mark (p : tpc) : bool := match p with TNew | TMarked => false | _ => true end.
+(* the collector holds its protection snapshot *)
+Definition has_prot (p : gpc) : bool := match p with GGotMarks | GGotReach | GListed => true | _ => false end.
 
+(* why the running collection will not delete file t *)
 Definition covered (w : gworld) (t : tid) : Prop :=
-  g_prot w t = true \/ g_start w <= g_mtime w t
-  \/ (g_gpc w = GGotMarks /\ g_ref w t = true)
-  \/ ((g_gpc w = GGotReach \/ g_gpc w = GListed) /\ g_reach w t = true).
+  (has_prot (g_gpc w) = true /\ g_prot w t = true)                                (* in the protection snapshot *)
+  \/ g_start w <= g_mtime w t                                                      (* written after the run started *)
+  \/ (g_gpc w = GGotMarks /\ g_ref w t = true)                                     (* will be in the reachability snapshot *)
+  \/ ((g_gpc w = GGotReach \/ g_gpc w = GListed) /\ g_reach w t = true)            (* is in it *)
+  \/ (g_gpc w = GAnnounced /\ (g_marker w t = true \/ g_ref w t = true)).         (* will be in one of the two *)
 
+(* Everything is stated for files whose marker no run has treated as abandoned (g_swept = false): a
+   transaction that outlives the abandonment timeout has given up its protection, by design. *)
 Record GInv (w : gworld) : Prop := {
-  GI_mark : forall t, marked (g_tpc w t) = true -> g_marker w t = true;
+  GI_mark : forall t, marked (g_tpc w t) = true -> g_swept w t = false -> g_marker w t = true;
   GI_ref : forall t, g_ref w t = committed (g_tpc w t);
-  GI_pres : forall t, g_present w t = live (g_tpc w t);
-  GI_mtime : forall t, live (g_tpc w t) = true -> g_mtime w t <= g_now w;
-  GI_cov : g_gpc w <> GIdle -> g_start w <= g_now w /\ forall t, live (g_tpc w t) = true -> covered w t;
+  GI_pres : forall t, live (g_tpc w t) = true -> g_swept w t = false -> g_present w t = true;
+  GI_only : forall t, g_present w t = true -> may_exist (g_tpc w t) = true;
+  GI_cov : g_gpc w <> GIdle -> g_start w <= g_now w /\ forall t, live (g_tpc w t) = true -> g_swept w t = false -> covered w t;
   GI_cut : g_gpc w = GListed -> g_cutoff w < g_start w;
-  GI_del : g_deleted w = [] }.
+  GI_del : forall t, In t (g_deleted w) ->
+             g_present w t = false /\ past_mark (g_tpc w t) = true /\ (g_swept w t = true \/ live (g_tpc w t) = false) }.
 
 Lemma updf_same {A} t (v : A) f : updf t v f t = v.
 Proof. unfold updf. rewrite Nat.eqb_refl. reflexivity. Qed.
 Lemma updf_other {A} t u (v : A) f : u <> t -> updf t v f u = f u.
 Proof. unfold updf. intro H. destruct (Nat.eqb_spec u t); [contradiction|reflexivity]. Qed.
 
-Ltac tx_split u t := destruct (Nat.eq_dec u t) as [->|NE]; [rewrite ?updf_same | rewrite ?updf_other by exact NE].
+Ltac tx_split u t := destruct (Nat.eq_dec u t) as [->|NE]; [rewrite ?updf_same in * | rewrite ?updf_other in * by exact NE].
+
+(* a transaction's step on file t leaves the coverage of every other file alone *)
+Lemma covered_other w t u p mt pres mk rf mkmt :
+  u <> t -> covered w u -> covered (with_tx w t p mt pres mk rf mkmt) u.
+Proof.
+  intros NE C. unfold covered, with_tx in *. simpl. rewrite !updf_other by exact NE. exact C.
+Qed.
+
+(* the invariant's clauses for a transaction step on t: the files u <> t are dealt with, the clause for t remains *)
+Ltac t_mark I t := let u := fresh "u" in let M := fresh "M" in let SW := fresh "SW" in
+  intros u M SW; tx_split u t; [ | apply (GI_mark _ I u M SW)].
+Ltac t_ref I t := let u := fresh "u" in intro u; tx_split u t; [ | apply (GI_ref _ I u)].
+Ltac t_pres I t := let u := fresh "u" in let L := fresh "L" in let SW := fresh "SW" in
+  intros u L SW; tx_split u t; [ | apply (GI_pres _ I u L SW)].
+Ltac t_only I t := let u := fresh "u" in let P := fresh "P" in intros u P; tx_split u t; [ | apply (GI_only _ I u P)].
+Ltac t_del I t := let u := fresh "u" in let D := fresh "D" in let DP := fresh "DP" in let DM := fresh "DM" in let DS := fresh "DS" in
+  intros u D; destruct (GI_del _ I u D) as [DP [DM DS]]; tx_split u t; [ | auto].
 
 Lemma gstep_inv w e w' : GInv w -> gstep w e = Some w' -> GInv w'.
 Proof.
-  intros I H. destruct e as [dt|t|t|t|t|t| | |grace|t|n| ]; simpl in H.
+  intros I H. destruct e as [dt|t|t|t|t|t|t|t mt|t|t|t| |timeout|t| |grace|t|n| ]; simpl in H.
   - (* Tick *)
     destruct (Z.leb_spec 0 dt); [|discriminate]. inversion H; subst w'; clear H.
     constructor; simpl; try apply I.
-    + intros t L. pose proof (GI_mtime w I t L). lia.
-    + intro NI. destruct (GI_cov w I NI) as [S C]. split; [lia|]. intros t L. destruct (C t L) as [A|[A|[A|A]]]; unfold covered; simpl; auto.
+    intro NI. destruct (GI_cov w I NI) as [S C]. split; [lia|]. intros t L SW. exact (C t L SW).
   - (* TMarkW *)
     destruct (g_tpc w t) eqn:PC; try discriminate. inversion H; subst w'; clear H. unfold with_tx.
     constructor; simpl; try apply I.
-    + intros u M. tx_split u t; [reflexivity | apply (GI_mark w I u)]; rewrite ?updf_other in M by exact NE; exact M.
-    + intro u. tx_split u t; [reflexivity | apply (GI_ref w I u)].
-    + intro u. tx_split u t; [reflexivity | apply (GI_pres w I u)].
-    + intros u L. tx_split u t; [rewrite updf_same in L; discriminate|]. rewrite updf_other in L by exact NE. apply (GI_mtime w I u L).
-    + intro NI. destruct (GI_cov w I NI) as [S C]. split; [exact S|]. intros u L.
-      tx_split u t; [rewrite updf_same in L; discriminate|]. rewrite updf_other in L by exact NE.
-      destruct (C u L) as [A|[A|[A|A]]]; unfold covered; simpl; rewrite ?updf_other by exact NE; auto.
-  - (* TDataW: the file is written now *)
+    + t_mark I t. reflexivity.
+    + t_ref I t. reflexivity.
+    + t_pres I t. discriminate.
+    + t_only I t. discriminate.
+    + intro NI. destruct (GI_cov w I NI) as [S C]. split; [exact S|]. intros u L SW.
+      tx_split u t; [discriminate|]. apply (covered_other w t u); auto.
+    + t_del I t. rewrite PC in DM. discriminate.
+  - (* TDataW: the file is in place now *)
     destruct (g_tpc w t) eqn:PC; try discriminate. inversion H; subst w'; clear H. unfold with_tx.
     constructor; simpl; try apply I.
-    + intros u M. tx_split u t; [reflexivity | apply (GI_mark w I u)]; rewrite ?updf_other in M by exact NE; exact M.
-    + intro u. tx_split u t; [reflexivity | apply (GI_ref w I u)].
-    + intro u. tx_split u t; [reflexivity | apply (GI_pres w I u)].
-    + intros u L. tx_split u t; [lia|]. rewrite updf_other in L by exact NE. apply (GI_mtime w I u L).
-    + intro NI. destruct (GI_cov w I NI) as [S C]. split; [exact S|]. intros u L.
-      tx_split u t.
-      * right. left. simpl. rewrite updf_same. exact S.
-      * rewrite updf_other in L by exact NE.
-        destruct (C u L) as [A|[A|[A|A]]]; unfold covered; simpl; rewrite ?updf_other by exact NE; auto.
+    + t_mark I t. apply (GI_mark w I t); [rewrite PC; reflexivity | exact SW].
+    + t_ref I t. reflexivity.
+    + t_pres I t. reflexivity.
+    + t_only I t. reflexivity.
+    + intro NI. destruct (GI_cov w I NI) as [S C]. split; [exact S|]. intros u L SW.
+      tx_split u t; [right; left; simpl; rewrite updf_same; exact S | apply (covered_other w t u); auto].
+    + t_del I t. rewrite PC in DM. discriminate.
   - (* TFlip *)
     destruct (g_tpc w t) eqn:PC; try discriminate. inversion H; subst w'; clear H. unfold with_tx.
-    pose proof (GI_pres w I t) as Pt. rewrite PC in Pt. simpl in Pt.
+    assert (Lt : live (g_tpc w t) = true) by (rewrite PC; reflexivity).
     constructor; simpl; try apply I.
-    + intros u M. tx_split u t; [reflexivity | apply (GI_mark w I u)]; rewrite ?updf_other in M by exact NE; exact M.
-    + intro u. tx_split u t; [reflexivity | apply (GI_ref w I u)].
-    + intro u. tx_split u t; [exact Pt | apply (GI_pres w I u)].
-    + intros u L. tx_split u t; [apply (GI_mtime w I t); rewrite PC; reflexivity|]. rewrite updf_other in L by exact NE. apply (GI_mtime w I u L).
-    + intro NI. destruct (GI_cov w I NI) as [S C]. split; [exact S|]. intros u L.
-      tx_split u t.
-      * assert (Lt : live (g_tpc w t) = true) by (rewrite PC; reflexivity).
-        destruct (C t Lt) as [A|[A|[[A1 A2]|A]]]; unfold covered; simpl; rewrite ?updf_same; auto.
-      * rewrite updf_other in L by exact NE.
-        destruct (C u L) as [A|[A|[A|A]]]; unfold covered; simpl; rewrite ?updf_other by exact NE; auto.
+    + t_mark I t. apply (GI_mark w I t); [rewrite PC; reflexivity | exact SW].
+    + t_ref I t. reflexivity.
+    + t_pres I t. apply (GI_pres w I t Lt SW).
+    + t_only I t. reflexivity.
+    + intro NI. destruct (GI_cov w I NI) as [S C]. split; [exact S|]. intros u L SW.
+      tx_split u t; [|apply (covered_other w t u); auto].
+      destruct (C t Lt SW) as [A|[A|[[A1 A2]|[A|[A1 A2]]]]]; unfold covered; simpl; rewrite ?updf_same; auto.
+      * right. right. right. right. split; [exact A1|]. right. reflexivity.
+    + t_del I t. repeat split; auto. destruct DS as [DS|DS]; [left; exact DS | rewrite Lt in DS; discriminate].
   - (* TMarkD *)
     destruct (g_tpc w t) eqn:PC; try discriminate. inversion H; subst w'; clear H. unfold with_tx.
-    pose proof (GI_pres w I t) as Pt. rewrite PC in Pt. simpl in Pt.
+    assert (Lt : live (g_tpc w t) = true) by (rewrite PC; reflexivity).
+    pose proof (GI_ref w I t) as Rt. rewrite PC in Rt. simpl in Rt.
     constructor; simpl; try apply I.
-    + intros u M. tx_split u t; [rewrite updf_same in M; discriminate|]. rewrite updf_other in M by exact NE. apply (GI_mark w I u M).
-    + intro u. tx_split u t; [reflexivity | apply (GI_ref w I u)].
-    + intro u. tx_split u t; [exact Pt | apply (GI_pres w I u)].
-    + intros u L. tx_split u t; [apply (GI_mtime w I t); rewrite PC; reflexivity|]. rewrite updf_other in L by exact NE. apply (GI_mtime w I u L).
-    + intro NI. destruct (GI_cov w I NI) as [S C]. split; [exact S|]. intros u L.
-      tx_split u t.
-      * assert (Lt : live (g_tpc w t) = true) by (rewrite PC; reflexivity).
-        destruct (C t Lt) as [A|[A|[[A1 A2]|A]]]; unfold covered; simpl; rewrite ?updf_same; auto.
-      * rewrite updf_other in L by exact NE.
-        destruct (C u L) as [A|[A|[A|A]]]; unfold covered; simpl; rewrite ?updf_other by exact NE; auto.
+    + t_mark I t. discriminate.
+    + t_ref I t. reflexivity.
+    + t_pres I t. apply (GI_pres w I t Lt SW).
+    + t_only I t. reflexivity.
+    + intro NI. destruct (GI_cov w I NI) as [S C]. split; [exact S|]. intros u L SW.
+      tx_split u t; [|apply (covered_other w t u); auto].
+      destruct (C t Lt SW) as [A|[A|[[A1 A2]|[A|[A1 A2]]]]]; unfold covered; simpl; rewrite ?updf_same; auto.
+      * right. right. right. right. split; [exact A1|]. right. reflexivity.
+    + t_del I t. repeat split; auto. destruct DS as [DS|DS]; [left; exact DS | rewrite Lt in DS; discriminate].
   - (* TRollback *)
-    assert (H' : Some (with_tx w t TRolled (g_mtime w t) false false false) = Some w' /\ (g_tpc w t = TMarked \/ g_tpc w t = TWritten)).
+    assert (H' : Some (with_tx w t TRolled (g_mtime w t) false false false (g_mkmtime w t)) = Some w' /\ (g_tpc w t = TMarked \/ g_tpc w t = TWritten)).
     { destruct (g_tpc w t); try discriminate; auto. }
-    destruct H' as [H' _]. inversion H'; subst w'; clear H H'. unfold with_tx.
+    destruct H' as [H' PC]. inversion H'; subst w'; clear H H'. unfold with_tx.
     constructor; simpl; try apply I.
-    + intros u M. tx_split u t; [rewrite updf_same in M; discriminate|]. rewrite updf_other in M by exact NE. apply (GI_mark w I u M).
-    + intro u. tx_split u t; [reflexivity | apply (GI_ref w I u)].
-    + intro u. tx_split u t; [reflexivity | apply (GI_pres w I u)].
-    + intros u L. tx_split u t; [rewrite updf_same in L; discriminate|]. rewrite updf_other in L by exact NE. apply (GI_mtime w I u L).
-    + intro NI. destruct (GI_cov w I NI) as [S C]. split; [exact S|]. intros u L.
-      tx_split u t; [rewrite updf_same in L; discriminate|]. rewrite updf_other in L by exact NE.
-      destruct (C u L) as [A|[A|[A|A]]]; unfold covered; simpl; rewrite ?updf_other by exact NE; auto.
-  - (* GMarks: the run starts by loading the protection markers *)
-    destruct (g_gpc w) eqn:GP; try discriminate. inversion H; subst w'; clear H.
+    + t_mark I t. discriminate.
+    + t_ref I t. reflexivity.
+    + t_pres I t. discriminate.
+    + t_only I t. discriminate.
+    + intro NI. destruct (GI_cov w I NI) as [S C]. split; [exact S|]. intros u L SW.
+      tx_split u t; [discriminate | apply (covered_other w t u); auto].
+    + t_del I t. repeat split; auto.
+  - (* TAbandon: the owner drops the marker of a file it will never publish *)
+    assert (H' : Some (with_tx w t TOrphaned (g_mtime w t) (g_present w t) false false (g_mkmtime w t)) = Some w' /\ (g_tpc w t = TWritten \/ g_tpc w t = TAdoptM)).
+    { destruct (g_tpc w t); try discriminate; auto. }
+    destruct H' as [H' PC]. inversion H'; subst w'; clear H H'. unfold with_tx.
     constructor; simpl; try apply I.
-    + intros _. split; [lia|]. intros t L. unfold covered. simpl.
+    + t_mark I t. discriminate.
+    + t_ref I t. reflexivity.
+    + t_pres I t. discriminate.
+    + t_only I t. reflexivity.
+    + intro NI. destruct (GI_cov w I NI) as [S C]. split; [exact S|]. intros u L SW.
+      tx_split u t; [discriminate | apply (covered_other w t u); auto].
+    + t_del I t. repeat split; auto.
+  - (* TStage: a pre-built file appears, of any age *)
+    destruct (g_tpc w t) eqn:PC; try discriminate. destruct (mt <=? g_now w); [|discriminate].
+    inversion H; subst w'; clear H. unfold with_tx.
+    constructor; simpl; try apply I.
+    + t_mark I t. discriminate.
+    + t_ref I t. reflexivity.
+    + t_pres I t. discriminate.
+    + t_only I t. reflexivity.
+    + intro NI. destruct (GI_cov w I NI) as [S C]. split; [exact S|]. intros u L SW.
+      tx_split u t; [discriminate | apply (covered_other w t u); auto].
+    + t_del I t. rewrite PC in DM. discriminate.
+  - (* TAdoptMark *)
+    destruct (g_tpc w t) eqn:PC; try discriminate. inversion H; subst w'; clear H. unfold with_tx.
+    constructor; simpl; try apply I.
+    + t_mark I t. reflexivity.
+    + t_ref I t. reflexivity.
+    + t_pres I t. discriminate.
+    + t_only I t. reflexivity.
+    + intro NI. destruct (GI_cov w I NI) as [S C]. split; [exact S|]. intros u L SW.
+      tx_split u t; [discriminate | apply (covered_other w t u); auto].
+    + t_del I t. repeat split; auto.
+  - (* TAdopt: only while no collection run is announced, and only a file that is still in place *)
+    destruct (g_tpc w t) eqn:PC; try discriminate. destruct (g_gpc w) eqn:GP; try discriminate.
+    destruct (g_present w t) eqn:Pt; [|discriminate]. inversion H; subst w'; clear H. unfold with_tx.
+    constructor; simpl; try apply I.
+    + t_mark I t. apply (GI_mark w I t); [rewrite PC; reflexivity | exact SW].
+    + t_ref I t. reflexivity.
+    + t_pres I t. reflexivity.
+    + t_only I t. reflexivity.
+    + intro X. exfalso. apply X. exact GP.
+    + t_del I t. congruence.
+  - (* TAdoptBare: not a step of the repaired code *)
+    discriminate.
+  - (* GAnnounce: the run is announced before anything else *)
+    destruct (g_gpc w) eqn:GP; try discriminate. inversion H; subst w'; clear H. unfold with_gc.
+    constructor; simpl; try apply I.
+    + intros _. split; [lia|]. intros t L SW. unfold covered. simpl. right. right. right. right. split; [reflexivity|].
       destruct (g_tpc w t) eqn:PC; try discriminate.
-      * left. apply (GI_mark w I t). rewrite PC. reflexivity.
-      * left. apply (GI_mark w I t). rewrite PC. reflexivity.
-      * right. right. left. split; [reflexivity|]. rewrite (GI_ref w I t), PC. reflexivity.
+      * left. apply (GI_mark w I t); [rewrite PC; reflexivity | exact SW].
+      * left. apply (GI_mark w I t); [rewrite PC; reflexivity | exact SW].
+      * right. rewrite (GI_ref w I t), PC. reflexivity.
     + discriminate.
-  - (* GMeta *)
-    destruct (g_gpc w) eqn:GP; try discriminate. inversion H; subst w'; clear H.
+  - (* GMarks: the protection markers are loaded *)
+    destruct (g_gpc w) eqn:GP; try discriminate. inversion H; subst w'; clear H. unfold with_gc.
     assert (NI : g_gpc w <> GIdle) by (rewrite GP; discriminate).
     destruct (GI_cov w I NI) as [S C].
     constructor; simpl; try apply I.
-    + intros _. split; [exact S|]. intros t L. destruct (C t L) as [A|[A|[[A1 A2]|[[A1|A1] A2]]]]; unfold covered; simpl; auto.
-      * right. right. right. split; [left; reflexivity | exact A2].
-      * rewrite GP in A1. discriminate.
-      * rewrite GP in A1. discriminate.
+    + intros _. split; [exact S|]. intros t L SW.
+      destruct (C t L SW) as [[A1 A2]|[A|[[A1 A2]|[[[A1|A1] A2]|[A1 [A2|A2]]]]]]; rewrite ?GP in *; try discriminate; unfold covered; simpl; auto 6.
+    + discriminate.
+  - (* GSweep: a marker older than the abandonment timeout is deleted; its file is on its own from now on *)
+    destruct (g_gpc w) eqn:GP; try discriminate.
+    destruct (g_prot w t) eqn:PT; [|discriminate].
+    destruct (gen_marker_action _) eqn:ACT; [discriminate|]. inversion H; subst w'; clear H.
+    assert (NI : g_gpc w <> GIdle) by (rewrite GP; discriminate).
+    destruct (GI_cov w I NI) as [S C].
+    constructor; simpl; try apply I.
+    + intros u M SW. tx_split u t; [discriminate | apply (GI_mark w I u M SW)].
+    + intros u L SW. tx_split u t; [discriminate | apply (GI_pres w I u L SW)].
+    + intros _. split; [exact S|]. intros u L SW. tx_split u t; [discriminate|].
+      destruct (C u L SW) as [[A1 A2]|[A|[[A1 A2]|[[[A1|A1] A2]|[A1 A2]]]]]; rewrite ?GP in *; try discriminate; unfold covered; simpl;
+        rewrite ?updf_other by exact NE; auto 6.
+    + discriminate.
+    + intros u D. destruct (GI_del w I u D) as [DP [DM DS]]. repeat split; auto.
+      destruct DS as [DS|DS]; [left|right; exact DS]. tx_split u t; [reflexivity | exact DS].
+  - (* GMeta *)
+    destruct (g_gpc w) eqn:GP; try discriminate. inversion H; subst w'; clear H. unfold with_gc.
+    assert (NI : g_gpc w <> GIdle) by (rewrite GP; discriminate).
+    destruct (GI_cov w I NI) as [S C].
+    constructor; simpl; try apply I.
+    + intros _. split; [exact S|]. intros t L SW.
+      destruct (C t L SW) as [[A1 A2]|[A|[[A1 A2]|[[[A1|A1] A2]|[A1 A2]]]]]; rewrite ?GP in *; try discriminate; unfold covered; simpl; auto 7.
     + discriminate.
   - (* GList *)
     assert (NI : g_gpc w <> GIdle) by (destruct (g_gpc w); try discriminate).
     destruct (GI_cov w I NI) as [S C].
     assert (H' : (g_gpc w = GGotReach \/ g_gpc w = GListed) /\
-                 (if g_now w - g_start w <? grace then Some {| g_now := g_now w; g_tpc := g_tpc w; g_mtime := g_mtime w; g_present := g_present w;
-                   g_marker := g_marker w; g_ref := g_ref w; g_orphans := g_orphans w; g_gpc := GListed; g_prot := g_prot w; g_reach := g_reach w;
-                   g_start := g_start w; g_cutoff := g_now w - grace; g_listing := g_present w; g_deleted := g_deleted w |} else None) = Some w').
+                 (if g_now w - g_start w <? grace
+                  then Some (with_gc w GListed (g_prot w) (g_reach w) (g_start w) (gen_sweep_cutoff (g_now w) grace) (g_present w) (g_mcut w) (g_orphans w))
+                  else None) = Some w').
     { destruct (g_gpc w); try discriminate; auto. }
     destruct H' as [GP H']. destruct (Z.ltb_spec (g_now w - g_start w) grace); [|discriminate]. inversion H'; subst w'; clear H H'.
+    unfold with_gc.
     constructor; simpl; try apply I.
-    + intros _. split; [exact S|]. intros t L. destruct (C t L) as [A|[A|[[A1 A2]|[A1 A2]]]]; unfold covered; simpl; auto.
+    + intros _. split; [exact S|]. intros t L SW.
+      destruct (C t L SW) as [[A1 A2]|[A|[[A1 A2]|[[A1 A2]|[A1 A2]]]]]; unfold covered; simpl.
+      * left. split; [reflexivity | exact A2].
+      * right. left. exact A.
       * destruct GP as [G|G]; rewrite G in A1; discriminate.
-      * right. right. right. split; [right; reflexivity | exact A2].
-    + intros _. lia.
-  - (* GDel: never enabled for a file a live transaction owns *)
+      * right. right. right. left. split; [right; reflexivity | exact A2].
+      * destruct GP as [G|G]; rewrite G in A1; discriminate.
+    + intros _. pose proof (sweep_cutoff_le (g_now w) grace). lia.
+  - (* GDel: never enabled for a file a live transaction owns, unless its marker was abandoned *)
     destruct (g_gpc w) eqn:GP; try discriminate.
-    destruct (g_listing w t && negb (g_reach w t) && negb (g_prot w t) && (g_mtime w t <? g_cutoff w) && g_present w t) eqn:Guard; [|discriminate].
-    exfalso. apply andb_true_iff in Guard. destruct Guard as [Guard Pr].
-    apply andb_true_iff in Guard. destruct Guard as [Guard Mt]. apply andb_true_iff in Guard. destruct Guard as [Guard Np].
-    apply andb_true_iff in Guard. destruct Guard as [_ Nr]. apply negb_true_iff in Np, Nr. apply Z.ltb_lt in Mt.
-    rewrite (GI_pres w I t) in Pr.
+    destruct (g_listing w t && gen_delete_guard (g_reach w t || g_prot w t) (g_mtime w t) (g_cutoff w) && g_present w t) eqn:Guard; [|discriminate].
+    inversion H; subst w'; clear H.
+    apply andb_true_iff in Guard. destruct Guard as [Guard Pr].
+    apply andb_true_iff in Guard. destruct Guard as [_ DG]. apply delete_guard_spec in DG. destruct DG as [Cov Mt].
+    apply orb_false_iff in Cov. destruct Cov as [Nr Np].
     assert (NI : g_gpc w <> GIdle) by (rewrite GP; discriminate).
     destruct (GI_cov w I NI) as [S C]. pose proof (GI_cut w I GP) as Cut.
-    destruct (C t Pr) as [A|[A|[[A1 A2]|[A1 A2]]]]; try congruence; try lia.
+    assert (OK : g_swept w t = true \/ live (g_tpc w t) = false).
+    { destruct (live (g_tpc w t)) eqn:L; [|right; reflexivity].
+      destruct (g_swept w t) eqn:SW; [left; reflexivity|]. exfalso.
+      destruct (C t L SW) as [[A1 A2]|[A|[[A1 A2]|[[A1 A2]|[A1 A2]]]]]; try congruence; try lia. }
+    clear NI.
+    assert (PM : past_mark (g_tpc w t) = true).
+    { pose proof (GI_only w I t Pr) as ME. destruct (g_tpc w t); try discriminate; reflexivity. }
+    constructor; simpl; try apply I.
+    + intros u L SW. tx_split u t; [destruct OK as [A|A]; congruence | apply (GI_pres w I u L SW)].
+    + intros u P. tx_split u t; [discriminate | apply (GI_only w I u P)].
+    + intros _. split; [exact S|]. intros u L SW. pose proof (C u L SW) as CU. unfold covered in *. simpl. rewrite GP in CU. exact CU.
+    + intros _. exact Cut.
+    + intros u [E|D].
+      * subst u. rewrite updf_same. auto.
+      * destruct (GI_del w I u D) as [DP [DM DS]]. tx_split u t; auto.
   - (* GDelOrphan *)
     destruct (g_gpc w) eqn:GP; try discriminate.
-    destruct (existsb _ (g_orphans w)); [|discriminate]. inversion H; subst w'; clear H.
+    destruct (existsb _ (g_orphans w)); [|discriminate]. inversion H; subst w'; clear H. unfold with_gc.
+    assert (NI : g_gpc w <> GIdle) by (rewrite GP; discriminate).
+    destruct (GI_cov w I NI) as [S C].
     constructor; simpl; try apply I.
-    + intros _. assert (NI : g_gpc w <> GIdle) by (rewrite GP; discriminate).
-      destruct (GI_cov w I NI) as [S C]. split; [exact S|]. intros t L. destruct (C t L) as [A|[A|[[A1 A2]|[A1 A2]]]]; unfold covered; simpl; auto.
-      * rewrite GP in A1. discriminate.
-      * right. right. right. split; [right; reflexivity | exact A2].
+    + intros _. split; [exact S|]. intros t L SW. pose proof (C t L SW) as CU. unfold covered in *. simpl. rewrite GP in CU. exact CU.
     + intros _. apply (GI_cut w I GP).
   - (* GEnd *)
-    assert (H' : Some {| g_now := g_now w; g_tpc := g_tpc w; g_mtime := g_mtime w; g_present := g_present w; g_marker := g_marker w;
-                   g_ref := g_ref w; g_orphans := g_orphans w; g_gpc := GIdle; g_prot := g_prot w; g_reach := g_reach w;
-                   g_start := g_start w; g_cutoff := g_cutoff w; g_listing := g_listing w; g_deleted := g_deleted w |} = Some w').
+    assert (H' : Some (with_gc w GIdle (g_prot w) (g_reach w) (g_start w) (g_cutoff w) (g_listing w) (g_mcut w) (g_orphans w)) = Some w').
     { destruct (g_gpc w); try discriminate; auto. }
-    inversion H'; subst w'; clear H H'.
+    inversion H'; subst w'; clear H H'. unfold with_gc.
     constructor; simpl; try apply I.
     + intro X. contradiction.
     + discriminate.
@@ -175,18 +340,181 @@ Proof.
   destruct (gstep w e) eqn:St; [eapply gstep_inv; eauto | exact I].
 Qed.
 
-(* C06: for every interleaving of collection runs (each lasting less than its grace period) with
-   transactions that write, commit or roll back -- including transactions whose files are older than
-   the grace period when they commit -- every file referenced by the committed table, and every file
-   of a transaction still in flight, exists; the collector deleted no transaction file. *)
+(* C06: for every interleaving of collection runs (each announced, each lasting less than its grace period)
+   with transactions that write (however slowly: any time may pass between a marker and its file), adopt
+   pre-built files of any age, commit, retry (abandoning the manifests of the lost attempt) or roll back --
+   including transactions whose files are older than the grace period when they commit -- every file
+   referenced by the committed table, and every file of a transaction still in flight, exists, and what the
+   collector deleted is neither; for every file whose marker no run treated as older than the abandonment
+   timeout. *)
 Theorem gc_race_safe orph evs :
   let w := grun (ginit orph) evs in
-  (forall t, g_ref w t = true -> g_present w t = true)
-  /\ (forall t, g_tpc w t = TWritten -> g_present w t = true)
-  /\ g_deleted w = [].
+  forall f, g_swept w f = false ->
+    (g_ref w f = true -> g_present w f = true)
+    /\ (g_tpc w f = TWritten -> g_present w f = true)
+    /\ (In f (g_deleted w) -> g_present w f = false /\ g_ref w f = false /\ g_tpc w f <> TWritten).
 Proof.
-  intro w. assert (I : GInv w) by (apply grun_inv; apply ginit_inv).
-  split; [|split; [|apply I]].
-  - intros t R. rewrite (GI_ref w I t) in R. rewrite (GI_pres w I t). destruct (g_tpc w t); try discriminate; reflexivity.
-  - intros t P. rewrite (GI_pres w I t), P. reflexivity.
+  intros w f SW. assert (I : GInv w) by (apply grun_inv; apply ginit_inv).
+  split; [|split].
+  - intros R. rewrite (GI_ref w I f) in R. apply (GI_pres w I f); [|exact SW]. destruct (g_tpc w f); try discriminate; reflexivity.
+  - intros P. apply (GI_pres w I f); [rewrite P; reflexivity | exact SW].
+  - intros D. destruct (GI_del w I f D) as [DP [_ [DS|DS]]]; [congruence|].
+    split; [exact DP|]. split.
+    + rewrite (GI_ref w I f). destruct (g_tpc w f); try discriminate; reflexivity.
+    + intro E. rewrite E in DS. discriminate.
 Qed.
+
+(* ---- a marker is treated as abandoned only when it is older than the abandonment timeout *)
+
+Definition unmarked_yet (p : tpc) : bool := match p with TNew | TPre => true | _ => false end.
+
+Record SInv (T : Z) (w : gworld) : Prop := {
+  SI_new : forall t, unmarked_yet (g_tpc w t) = true -> g_marker w t = false /\ g_prot w t = false /\ g_swept w t = false;
+  SI_run : has_prot (g_gpc w) = true -> g_mcut w <= g_now w - T;
+  SI_old : forall t, g_swept w t = true -> g_mkmtime w t + T < g_now w }.
+
+Definition timeout_ok (T : Z) (e : gevent) : Prop := match e with GMarks timeout => T <= timeout | _ => True end.
+
+Ltac s_tx I T t :=
+  constructor; simpl; try apply I;
+  [ intros u N; tx_split u t; [try discriminate | apply (SI_new T _ I u N)]
+  | intros u SW; tx_split u t; try apply (SI_old T _ I _ SW) ].
+
+Lemma gstep_sinv T w e w' : SInv T w -> timeout_ok T e -> gstep w e = Some w' -> SInv T w'.
+Proof.
+  intros I TO H. destruct e as [dt|t|t|t|t|t|t|t mt|t|t|t| |timeout|t| |grace|t|n| ]; simpl in H.
+  - destruct (Z.leb_spec 0 dt); [|discriminate]. inversion H; subst w'; clear H.
+    constructor; simpl; try apply I.
+    + intro HP. pose proof (SI_run T w I HP). lia.
+    + intros t SW. pose proof (SI_old T w I t SW). lia.
+  - (* TMarkW: the marker's time is set; the file was never swept before *)
+    destruct (g_tpc w t) eqn:PC; try discriminate. inversion H; subst w'; clear H. unfold with_tx.
+    assert (U : unmarked_yet (g_tpc w t) = true) by (rewrite PC; reflexivity).
+    destruct (SI_new T w I t U) as [_ [_ NS]].
+    s_tx I T t. congruence.
+  - destruct (g_tpc w t) eqn:PC; try discriminate. inversion H; subst w'; clear H. unfold with_tx. s_tx I T t.
+  - destruct (g_tpc w t) eqn:PC; try discriminate. inversion H; subst w'; clear H. unfold with_tx. s_tx I T t.
+  - destruct (g_tpc w t) eqn:PC; try discriminate. inversion H; subst w'; clear H. unfold with_tx. s_tx I T t.
+  - assert (H' : Some (with_tx w t TRolled (g_mtime w t) false false false (g_mkmtime w t)) = Some w').
+    { destruct (g_tpc w t); try discriminate; auto. }
+    inversion H'; subst w'; clear H H'. unfold with_tx. s_tx I T t.
+  - assert (H' : Some (with_tx w t TOrphaned (g_mtime w t) (g_present w t) false false (g_mkmtime w t)) = Some w').
+    { destruct (g_tpc w t); try discriminate; auto. }
+    inversion H'; subst w'; clear H H'. unfold with_tx. s_tx I T t.
+  - (* TStage *)
+    destruct (g_tpc w t) eqn:PC; try discriminate. destruct (mt <=? g_now w); [|discriminate].
+    inversion H; subst w'; clear H. unfold with_tx.
+    assert (U : unmarked_yet (g_tpc w t) = true) by (rewrite PC; reflexivity).
+    destruct (SI_new T w I t U) as [_ [NP NS]].
+    s_tx I T t. auto.
+  - (* TAdoptMark: the marker's time is set; the file was never swept before *)
+    destruct (g_tpc w t) eqn:PC; try discriminate. inversion H; subst w'; clear H. unfold with_tx.
+    assert (U : unmarked_yet (g_tpc w t) = true) by (rewrite PC; reflexivity).
+    destruct (SI_new T w I t U) as [_ [_ NS]].
+    s_tx I T t. congruence.
+  - destruct (g_tpc w t) eqn:PC; try discriminate. destruct (g_gpc w) eqn:GP; try discriminate.
+    destruct (g_present w t); [|discriminate]. inversion H; subst w'; clear H. unfold with_tx.
+    constructor; simpl; try apply I.
+    + intros u N; tx_split u t; [discriminate | apply (SI_new T _ I u N)].
+    + intros u SW; tx_split u t; apply (SI_old T _ I _ SW).
+  - discriminate.
+  - (* GAnnounce *)
+    destruct (g_gpc w) eqn:GP; try discriminate. inversion H; subst w'; clear H. unfold with_gc.
+    constructor; simpl; try apply I. discriminate.
+  - (* GMarks *)
+    destruct (g_gpc w) eqn:GP; try discriminate. inversion H; subst w'; clear H. unfold with_gc.
+    constructor; simpl; try apply I.
+    + intros u N. destruct (SI_new T w I u N) as [A [_ B]]. auto.
+    + intros _. simpl in TO. pose proof (marker_cutoff_le (g_now w) timeout). lia.
+  - (* GSweep *)
+    destruct (g_gpc w) eqn:GP; try discriminate.
+    destruct (g_prot w t) eqn:PT; [|discriminate].
+    destruct (gen_marker_action _) eqn:ACT; [discriminate|]. inversion H; subst w'; clear H.
+    apply marker_sweep_old in ACT.
+    assert (M : g_mcut w <= g_now w - T) by (apply (SI_run T w I); rewrite GP; reflexivity).
+    constructor; simpl; try apply I.
+    + intros u N. tx_split u t; [destruct (SI_new T w I t N) as [_ [A _]]; congruence | apply (SI_new T w I u N)].
+    + intros _. exact M.
+    + intros u SW. tx_split u t; [lia | apply (SI_old T w I u SW)].
+  - (* GMeta *)
+    destruct (g_gpc w) eqn:GP; try discriminate. inversion H; subst w'; clear H. unfold with_gc.
+    constructor; simpl; try apply I. intros _. apply (SI_run T w I). rewrite GP. reflexivity.
+  - (* GList *)
+    assert (HP : has_prot (g_gpc w) = true) by (destruct (g_gpc w); try discriminate; reflexivity).
+    assert (H' : (if g_now w - g_start w <? grace
+                  then Some (with_gc w GListed (g_prot w) (g_reach w) (g_start w) (gen_sweep_cutoff (g_now w) grace) (g_present w) (g_mcut w) (g_orphans w))
+                  else None) = Some w').
+    { destruct (g_gpc w); try discriminate; auto. }
+    destruct (g_now w - g_start w <? grace); [|discriminate]. inversion H'; subst w'; clear H H'. unfold with_gc.
+    constructor; simpl; try apply I. intros _. apply (SI_run T w I HP).
+  - (* GDel *)
+    destruct (g_gpc w) eqn:GP; try discriminate.
+    destruct (_ && _ && _); [|discriminate]. inversion H; subst w'; clear H.
+    constructor; simpl; try apply I. intros _. apply (SI_run T w I). rewrite GP. reflexivity.
+  - (* GDelOrphan *)
+    destruct (g_gpc w) eqn:GP; try discriminate.
+    destruct (existsb _ (g_orphans w)); [|discriminate]. inversion H; subst w'; clear H. unfold with_gc.
+    constructor; simpl; try apply I. intros _. apply (SI_run T w I). rewrite GP. reflexivity.
+  - (* GEnd *)
+    assert (H' : Some (with_gc w GIdle (g_prot w) (g_reach w) (g_start w) (g_cutoff w) (g_listing w) (g_mcut w) (g_orphans w)) = Some w').
+    { destruct (g_gpc w); try discriminate; auto. }
+    inversion H'; subst w'; clear H H'. unfold with_gc.
+    constructor; simpl; try apply I. discriminate.
+Qed.
+
+Lemma ginit_sinv T orph : SInv T (ginit orph).
+Proof.
+  constructor; simpl; auto; try discriminate.
+Qed.
+
+Lemma grun_sinv T w evs : SInv T w -> Forall (timeout_ok T) evs -> SInv T (grun w evs).
+Proof.
+  revert w. induction evs as [|e l IH]; intros w I F; [exact I|].
+  inversion F as [|x y TO F']; subst.
+  change (SInv T (grun (gstep_skip w e) l)). apply IH; [|exact F']. unfold gstep_skip.
+  destruct (gstep w e) eqn:St; [eapply gstep_sinv; eauto | exact I].
+Qed.
+
+(* For every interleaving whose collection runs all use an abandonment timeout of at least T: a file whose
+   marker some run deleted as abandoned had a marker older than T -- its transaction was in flight for
+   longer than T.  (So no marker of a transaction shorter than the abandonment timeout is ever swept,
+   however long the write of its file takes and whatever the grace period is.) *)
+Theorem swept_only_abandoned orph evs T :
+  Forall (timeout_ok T) evs ->
+  let w := grun (ginit orph) evs in
+  forall f, g_swept w f = true -> g_mkmtime w f + T < g_now w.
+Proof.
+  intros F w f SW. apply (SI_old T w); [|exact SW]. apply grun_sinv; [apply ginit_sinv | exact F].
+Qed.
+
+(* ... and until then the marker of a file in flight is in place, whatever the collector does: *)
+Theorem unswept_marker_kept orph evs :
+  let w := grun (ginit orph) evs in
+  forall f, g_swept w f = false ->
+    (g_tpc w f = TMarked \/ g_tpc w f = TWritten \/ g_tpc w f = TFlipped \/ g_tpc w f = TAdoptM) -> g_marker w f = true.
+Proof.
+  intros w f SW P. assert (I : GInv w) by (apply grun_inv; apply ginit_inv).
+  apply (GI_mark w I f); [|exact SW]. destruct P as [P|[P|[P|P]]]; rewrite P; reflexivity.
+Qed.
+
+(* ---- adoption of a pre-built file WITHOUT marker and handshake (the code before the repair) is unsafe *)
+
+(* A pre-built file ten hours old is staged; a collection run (grace 1 h) is announced, loads the markers and
+   reads the metadata; the transaction adopts the file and commits; the run, 4 ms old, lists and deletes the
+   file: unreferenced in its snapshot, unprotected, old.  The committed table references a deleted file. *)
+Definition unrepaired_counterexample : list gevent :=
+  [TStage 0%nat (-36000000); Tick 1; GAnnounce; Tick 1; GMarks 86400000; Tick 1; GMeta; Tick 1; TAdoptBare 0%nat; TFlip 0%nat; Tick 1;
+   GList 3600000; GDel 0%nat; GEnd].
+
+Lemma unmarked_adoption_refuted :
+  exists evs w, grun_strict_unrepaired (ginit []) evs = Some w
+    /\ g_swept w 0%nat = false /\ g_ref w 0%nat = true /\ g_present w 0%nat = false.
+Proof.
+  exists unrepaired_counterexample. eexists. split; [vm_compute; reflexivity|]. vm_compute. repeat split; reflexivity.
+Qed.
+
+(* the same events with the repaired adoption: the marker is written, but the run is announced: Adopt is refused *)
+Lemma repaired_adoption_refused :
+  let w := grun (ginit []) [TStage 0%nat (-36000000); Tick 1; GAnnounce; Tick 1; GMarks 86400000; Tick 1; GMeta; Tick 1; TAdoptMark 0%nat] in
+  gstep w (TAdopt 0%nat) = None /\ g_marker w 0%nat = true.
+Proof. vm_compute. split; reflexivity. Qed.
